@@ -189,6 +189,64 @@ func (st *state) emit(stream string, hex bool, text []byte, o dbccase.Outcome) {
 	st.nextID++
 }
 
+// zeroPad prefixes every all-digit number token of the text with zeros.
+func zeroPad(text []byte, zeros string) ([]byte, int) {
+	var b strings.Builder
+	n := 0
+	for _, t := range dbc.VerifScanAll(text) {
+		switch {
+		case t.Kind == 1:
+		case t.Kind == 7:
+			b.WriteString(`"` + t.Value + `"`)
+		case t.Kind == 4 && t.Value != "" && strings.Trim(t.Value, "0123456789") == "":
+			b.WriteString(zeros + t.Value)
+			n++
+		default:
+			b.WriteString(t.Value)
+		}
+	}
+	return []byte(b.String()), n
+}
+
+// checkZeroPad: a metamorphic form of "numbers are read in decimal" evaluated on the
+// implementation alone: padding the unsigned number tokens of an accepted text with zeros must
+// not change the parsed document (DBC has no octal notation; strconv base 10).
+func (st *state) checkZeroPad(text []byte) {
+	o := dbccase.ParseSafe("text.dbc", text, false)
+	if o.Class != "ok" {
+		return
+	}
+	for _, zeros := range []string{"0", "00"} {
+		padded, n := zeroPad(text, zeros)
+		if n == 0 {
+			return
+		}
+		st.hist["zero-padded"]++
+		o2 := dbccase.ParseSafe("padded.dbc", padded, false)
+		switch o2.Class {
+		case "panic":
+			st.fail(&failure{Sig: "c08-panic-parse", Detail: o2.Panic, Stream: "zero-padded", Text: string(padded), size: len(padded)})
+		case "syn", "other":
+			st.fail(&failure{Sig: "c08-zero-padded-number-rejected", Detail: "an accepted text is rejected once its numbers are zero padded: " + o2.Err.Error(),
+				Stream: "zero-padded", Text: string(padded), size: len(padded)})
+		case "ok":
+			pa, pb := dbccase.Project(o.File), dbccase.Project(o2.File)
+			var d []string
+			for _, s := range dbccase.Sections {
+				if pa[s] != pb[s] {
+					d = append(d, s)
+				}
+			}
+			if len(d) > 0 {
+				st.fail(&failure{Sig: "c08-zero-padded-number-read-differently-" + strings.Join(d, "+"),
+					Detail: "zero padding the numbers of an accepted text changes the parsed document (numbers are not read in decimal) in section(s) " + strings.Join(d, ","),
+					Stream: "zero-padded", Text: string(padded), size: len(padded)})
+			}
+			st.emit("zero-padded", false, padded, o2)
+		}
+	}
+}
+
 // ---- token-level mutations of a text ----
 func mutate(r *rng, text []byte) []byte {
 	toks := dbc.VerifScanAll(text)
@@ -310,6 +368,11 @@ func run(seed uint64, tier, outDir string) error {
 		seeds = append(seeds, []byte(h))
 		st.checkText("hand", []byte(h), false, true)
 		st.checkText("hand", []byte(h), true, true)
+	}
+	for i, sd := range seeds {
+		if i < 12 || tier == "thorough" {
+			st.checkZeroPad(sd)
+		}
 	}
 	for i := 0; i < nMut; i++ {
 		base := seeds[r.n(len(seeds))]
